@@ -207,8 +207,37 @@ func (fs foreignsim) Run(c *Case, dir string) *Outcome {
 		}
 	}
 	finished = true
+	foreignSpecific := true
+	if b.Failed() && len(c.Clients) > 0 {
+		// control: the same second history on the natively written file. If it fails there too the defect is
+		// not about reading another writer's layout, and the violation stays with the property it names.
+		ctl := work.NewExec(pathA, cfg)
+		ctl.Cur = content
+		ctl.LastTxid = a.LastTxid
+		ctl.Versions[a.LastTxid] = content
+		ctl.FileChecks = true
+		ctl.DeepCursor = true
+		func() {
+			defer func() { _ = recover() }()
+			if err := ctl.Open(ex.Open); err == nil {
+				for i := range c.Clients[0] {
+					ctl.RunStep(i, &c.Clients[0][i])
+					if ctl.Failed() {
+						break
+					}
+				}
+				if ctl.DB != nil {
+					_ = ctl.Close()
+				}
+			}
+		}()
+		if ctl.Failed() {
+			foreignSpecific = false
+			out.probe("failure-also-on-native-file", 1)
+		}
+	}
 	for _, v := range b.Viol {
-		if v.Prop != "C12" || (v.Class != "foreign-open") {
+		if foreignSpecific && (v.Prop != "C12" || v.Class != "foreign-open") {
 			v.Msg = v.Prop + "/" + v.Class + ": " + v.Msg
 			v.Prop, v.Class = "C12", "foreign-file"
 		}
